@@ -199,6 +199,34 @@ def check_long(case):
     return out
 
 
+# results whose conversion fails (cyclic, too deep, refused by the serialiser, raising serialisation method): the error reply follows the form rule
+
+def unconvertible_cases(tier):
+    for version in (2.0, 1.0):
+        for jc in (True, False):
+            for m in ("cyclic", "deepret", "badkeys", "badser"):
+                if m == "badser" and not jc:
+                    continue
+                for j in ("2.0", ABSENT):
+                    yield ((version, jc, "default", None), B.dumps(obj(j, 7, m, [])))
+                    yield ((version, jc, "default", None), B.dumps([obj(j, 7, m, []), obj("2.0", 8, "pair", [1, 2]), obj(ABSENT, 9, "pair", [3, 4])]))
+
+
+def check_unconvertible(case):
+    key, body = case
+    w = ref.World(version=key[0], use_jsonclass=key[1])
+    out = Out(cls="unconvertible")
+    viols, label, dom = ref.evaluate_body(w, body)
+    for prop, sig, detail in viols:
+        if prop == "C13":
+            out.bad(sig, detail)
+    return out
+
+
+def leg_unconvertible(part, tier, shard, nshards):
+    drive(part, "unconvertible-results", unconvertible_cases(tier), shard, nshards, check_unconvertible)
+
+
 def leg_long(part, tier, shard, nshards):
     drive(part, "long-history", long_cases(tier), shard, nshards, check_long)
     part.count("transitions", part.evals.get("long-history", 0) * 130)
@@ -380,7 +408,7 @@ def leg_concurrent(part, tier, shard, nshards):
     part.merge(total)
 
 
-LEGS = {"long-history": leg_long, "history": leg_history, "config-copy": leg_copy, "concurrent": leg_concurrent}
+LEGS = {"unconvertible-results": leg_unconvertible, "long-history": leg_long, "history": leg_history, "config-copy": leg_copy, "concurrent": leg_concurrent}
 
 META = {
     "engine": "E2-fake-network-history-search+E1-schedule-explorer+E3-small-scope-enumeration",
@@ -389,7 +417,8 @@ META = {
     "stateless model checking of two concurrent dispatcher threads at source-line granularity; enumeration of mutation sequences on Config.copy()",
     "rule": "history: every sequence of <=3 (thorough <=4) requests over a 17-request menu (1.0/2.0 calls, notifications, failing, unknown, bad arity, mixed "
     "and 1.0 batches, invalid objects of both versions, unparsable text, methods returning a Fault object, requests carrying translated beans) x 6 server configurations (2.0, 1.0, translation off, inline notification pool, "
-    "shared DEFAULT config); long-history: each menu request after 130 repetitions of each menu request, after 1100 (thorough up to 70000) repetitions of 4 of them, "
+    "shared DEFAULT config); unconvertible-results: methods returning a cyclic, a 100000-deep, a tuple-keyed result or a bean whose serialisation method raises, alone and in a "
+    "batch, 1.0 and 2.0 form, server 1.0/2.0, translation on/off; long-history: each menu request after 130 repetitions of each menu request, after 1100 (thorough up to 70000) repetitions of 4 of them, "
     "after 40 cycles through the menu and after large batches / large requests, on 3 configurations (the N-th reply equals a fresh dispatcher's); config-copy: every sequence of <=2 mutations from a 16-mutation menu on the copy and on the original from 3 start states; "
     "concurrent: 8 request pairs (thorough + 2 triples) x 3 configurations, every schedule up to the completed preemption level at line granularity of "
     "SimpleJSONRPCServer.py, jsonrpc.py, config.py; non-trivial = history of length >= 2 / mutation applied / execution with a choice point",
@@ -409,6 +438,8 @@ def replay(case):
     c = eval(case["case"], {"__builtins__": {}}, {})
     if case["leg"] == "history":
         return check_history(c).viols
+    if case["leg"] == "unconvertible-results":
+        return check_unconvertible(c).viols
     if case["leg"] == "long-history":
         return check_long(c).viols
     return check_copy(c).viols
